@@ -311,6 +311,8 @@ structure BoxLaws (B : BoxOps) : Prop where
 structure BoxIdeal (B : BoxOps) : Prop where
   auth : ∀ k n c t m, B.openBox k n c t = some m → B.sealBox k n m = (c, t)
 
+/-- `CBOX_NONCE_LENGTH` = 24, `CBOX_KEY_LENGTH` = 32, `CBOX_TAG_LENGTH` = 16 (type-level constants of `SalsaBox` / x25519);
+    the functions below use the numerals directly -/
 def CBOX_NONCE_LENGTH : Nat := 24
 def CBOX_KEY_LENGTH : Nat := 32
 def CBOX_TAG_LENGTH : Nat := 16
@@ -322,7 +324,7 @@ def secretKeyFrom (k : Key) : Res Bytes :=
 
 /-- `nonce_from` -/
 def nonceFrom (nonce : Bytes) : Res Bytes :=
-  if nonce.length = CBOX_NONCE_LENGTH then .ok nonce else .err .invalidNonce
+  if nonce.length = 24 then .ok nonce else .err .invalidNonce
 
 /-- `crypto_box`: the buffer afterwards (tag inserted in front) -/
 def cryptoBox (B : BoxOps) (recipPk senderSk : Key) (buffer nonce : Bytes) : Res Bytes := do
@@ -335,11 +337,11 @@ def cryptoBox (B : BoxOps) (recipPk senderSk : Key) (buffer nonce : Bytes) : Res
 def cryptoBoxOpen (B : BoxOps) (recipSk senderPk : Key) (buffer nonce : Bytes) : Res Bytes := do
   let sk ← secretKeyFrom recipSk
   let nonce ← nonceFrom nonce
-  if buffer.length < CBOX_TAG_LENGTH then .err .encryption
-  -- `&buffer.as_ref()[..CBOX_TAG_LENGTH]` and `&mut buffer.as_mut()[CBOX_TAG_LENGTH..]`
-  else if CBOX_TAG_LENGTH > buffer.length then .panic
+  if buffer.length < 16 then .err .encryption
+  -- `&buffer.as_ref()[..16]` and `&mut buffer.as_mut()[16..]`
+  else if 16 > buffer.length then .panic
   else
-    match B.openBox (B.beforenm sk senderPk.pub) nonce (buffer.drop CBOX_TAG_LENGTH) (buffer.take CBOX_TAG_LENGTH) with
+    match B.openBox (B.beforenm sk senderPk.pub) nonce (buffer.drop 16) (buffer.take 16) with
     | none => .err .encryption
     | some m => .ok m          -- decrypted in place behind the tag, then `buffer_remove(0..16)`
 
@@ -350,25 +352,25 @@ def sealNonce (B : BoxOps) (ephPk recipPk : Bytes) : Bytes := B.nonceHash (ephPk
 def cryptoBoxSeal (B : BoxOps) (ephSk : Bytes) (recipPk : Key) (message : Bytes) : Res Bytes := do
   let ephPk := B.pub ephSk
   let buffer := ephPk ++ message
-  -- `Writer::from_vec_skip(buffer, CBOX_KEY_LENGTH)`: `as_mut` is `&mut inner[pos..]`
-  if CBOX_KEY_LENGTH > buffer.length then .panic
+  -- `Writer::from_vec_skip(buffer, 32)`: `as_mut` is `&mut inner[pos..]`
+  if 32 > buffer.length then .panic
   else
     let nonce := sealNonce B ephPk recipPk.pub
-    let boxed ← cryptoBox B recipPk ⟨.dh .x25519, ephPk, some ephSk⟩ (buffer.drop CBOX_KEY_LENGTH) nonce
-    .ok (buffer.take CBOX_KEY_LENGTH ++ boxed)
+    let boxed ← cryptoBox B recipPk ⟨.dh .x25519, ephPk, some ephSk⟩ (buffer.drop 32) nonce
+    .ok (buffer.take 32 ++ boxed)
 
 /-- `crypto_box_seal_open` -/
 def cryptoBoxSealOpen (B : BoxOps) (recipSk : Key) (ciphertext : Bytes) : Res Bytes := do
-  if ciphertext.length < CBOX_KEY_LENGTH + CBOX_TAG_LENGTH then .err .encryption
-  -- `&ciphertext[..CBOX_KEY_LENGTH]`, `&ciphertext[CBOX_KEY_LENGTH..]`
-  else if CBOX_KEY_LENGTH > ciphertext.length then .panic
+  if ciphertext.length < 48 then .err .encryption
+  -- `&ciphertext[..32]`, `&ciphertext[32..]`
+  else if 32 > ciphertext.length then .panic
   else
-    let ephPk := ciphertext.take CBOX_KEY_LENGTH
+    let ephPk := ciphertext.take 32
     -- `X25519KeyPair::from_public_bytes`: exactly 32 bytes
     if ephPk.length ≠ 32 then .err .invalidKeyData
     else
       let nonce := sealNonce B ephPk recipSk.pub
-      cryptoBoxOpen B recipSk ⟨.dh .x25519, ephPk, none⟩ (ciphertext.drop CBOX_KEY_LENGTH) nonce
+      cryptoBoxOpen B recipSk ⟨.dh .x25519, ephPk, none⟩ (ciphertext.drop 32) nonce
 
 /-- `envelope::cast_x25519` -/
 def castX25519 (k : Key) : Res Key :=
